@@ -27,3 +27,9 @@ MUTANTS = [
     m("c05-twin-half-div", None, "        return 0.5 * self.gram(state).log_abs_det", "        return self.gram(state).log_abs_det / 2", twin=True),
     m("c05-twin-h2-inline", None, "        return 0.5 * state.mom @ self.dh2_dmom(state)", "        return 0.5 * state.mom @ (self.metric.inv @ state.mom)", twin=True),
 ]
+
+MUTANTS += [
+    m("c05-wiring-wrong-attr", "R5", "        return self._constr(state.pos)", "        return self._neg_log_dens(state.pos)"),
+    m("c05-binding-swapped", "R5", "        self._constr = wrap_function(constr, backend)", "        self._constr = wrap_function(neg_log_dens, backend)"),
+    m("c05-fallback-wrong-op", "R5", '            "jacobian_and_value",\n            "jacob_constr",', '            "grad_and_value",\n            "jacob_constr",'),
+]
